@@ -1093,15 +1093,14 @@ impl OrdWorld {
         }
         self.post_structure(ctx, opkind)?;
         // the keys the interrupted operation was about to change belong to the observation window
-        self.touched.clear();
         if let Some(a) = after.as_ref() {
             for (k, v) in a.iter() {
-                if self.model.get(k) != Some(v) && self.touched.len() < 8 {
+                if self.model.get(k) != Some(v) && self.touched.len() < 8 && !self.touched.contains(k) {
                     self.touched.push(*k);
                 }
             }
             for k in self.model.keys() {
-                if !a.contains_key(k) && self.touched.len() < 8 {
+                if !a.contains_key(k) && self.touched.len() < 8 && !self.touched.contains(k) {
                     self.touched.push(*k);
                 }
             }
@@ -1814,6 +1813,21 @@ impl World for OrdWorld {
         ctx.panic_at = step.panic_at;
         let n_before = ctx.cb_counts.len();
         let opkind = step.op.kind();
+        // the key this operation is about is part of every observation window that follows it
+        match step.op {
+            Op::OIns { k } | Op::ODel { k } | Op::OGet { k } | Op::OHold { k } | Op::ONext { k } | Op::OPrev { k } => {
+                self.touched.clear();
+                self.touched.push(k);
+            }
+            Op::OFirst { p } | Op::OHRead { p } | Op::OHWrite { p } | Op::OHDel { p } => {
+                self.touched.clear();
+                self.touched.push(p);
+                if let Some((k, _)) = self.model.range(..=p).next_back() {
+                    self.touched.push(*k);
+                }
+            }
+            _ => {}
+        }
         match step.op {
             Op::OHold { k } => self.step_hold(k, ctx)?,
             Op::OBulk { n, pat } => self.step_bulk(n, pat, ctx)?,
